@@ -19,7 +19,7 @@ def run(tier, seed):
                 'textbook ratios: power Sn/Sb, voltage Vn/Vb, current (Sn/Vn)/(Sb/Vb), impedance (Vn^2/Sn)/(Vb^2/Sb), '
                 'admittance its inverse, dc analogues with Idcb = Sb/Vdcb',
                 'not decided: the xlsx / json writers (pandas); System.reset as a whole (only NumParam.restore)')
-    items = [(P.calc_pu_coeff('C11'),), (P.set_pu_coeff('C11'),), (P.restore('C11'),), (P.model_set('C11', 'v'), None, P.replay_model_set),
+    items = [(P.calc_pu_coeff('C11'),), (P.set_pu_coeff('C11'),), (P.restore('C11'), None, P.replay_restore), (P.model_set('C11', 'v'), None, P.replay_model_set),
              (P.model_set('C11', 'vin'),)] + [(c,) for c in P.model_alter('C11')] + [(P.group_alter('C11'), None, P.replay_group_alter), (P.as_dict('C11'),), (P.as_dict('C11', converter=True),)]
     from contracts import fn_decl as D
     from contracts import fn_sequence as Q
